@@ -113,7 +113,13 @@ def displace (led : List Entry) (o : Owner) : List Entry :=
 def setOwner (led : List Entry) (id : Nat) (o : Owner) : List Entry :=
   led.map (fun e => if e.id = id then { e with owner := o } else e)
 
-def exec1 (l : Ledger) : Prim → Ledger
+def Prim.ok : Prim → Bool
+  | .closeOwner o guard => o.libuv && o != .leaked && (match o with | .handle _ .io => guard | _ => true)
+  | .adopt _ dst => match dst with | .handle _ .io => true | _ => false
+  | .transfer src dst => src.libuv && src != .leaked && dst.libuv && (match src with | .handle _ .io => false | _ => true)
+  | _ => true
+
+def exec1raw (l : Ledger) : Prim → Ledger
   | .create site kind o =>
     let e : Entry := { id := l.next, kind, cx := siteCloexec site, owner := o, stdio := false, bylib := true }
     { l with led := displace l.led o ++ [e], next := l.next + 1, evs := .create e :: l.evs,
@@ -136,7 +142,7 @@ def exec1 (l : Ledger) : Prim → Ledger
     match findId? l.led id with
     | none => l
     | some e =>
-      if e.owner = .user then
+      if e.owner = .user && !e.stdio then
         { l with led := l.led.filter (·.id ≠ id), evs := .close e true :: l.evs, out := s!"env fd- f{id}" :: l.out }
       else l
   | .userClose id =>
@@ -154,477 +160,10 @@ def exec1 (l : Ledger) : Prim → Ledger
     | some e => if e.owner = .user then { l with led := setOwner (displace l.led dst) id dst } else l
   | .say line => { l with out := line :: l.out }
 
+
+/-- the model refuses primitives the code never performs (they would show up as `model-bad-prim`) -/
+def exec1 (l : Ledger) (p : Prim) : Ledger := if p.ok then exec1raw l p else { l with out := "model-bad-prim" :: l.out }
+
 def exec (l : Ledger) (ps : List Prim) : Ledger := ps.foldl exec1 l
-
-/-! ## handles and the rest of the state (control flow only; descriptors live in the ledger) -/
-
-inductive HKind | tcp | pipe | udp | tty | poll | async | signal | fsev | proc
-  deriving DecidableEq, Repr
-
-inductive HSt | dead | live | closing | closed
-  deriving DecidableEq, Repr
-
-structure H where
-  kind : HKind
-  st : HSt := .live
-  policy : Nat := 0            -- 0 hold, 1 accept inside the callback
-  ipc : Bool := false
-  bound : Bool := false
-  listening : Bool := false
-  delayed : Bool := false      -- tcp delayed_error (EADDRINUSE at bind)
-  readable : Bool := false
-  connected : Bool := false
-  reading : Bool := false
-  pending : Nat := 0           -- connections waiting in the listen backlog
-  inflight : List (List HKind) := []   -- SCM_RIGHTS batches waiting in the socket
-  deriving Repr
-
-/-- `fail <syscall> <occurrence> <errno>` lines preceding the op -/
-abbrev Inj := List (String × Nat × Nat)
-
-def failsAt (inj : Inj) (name : String) (k : Nat) : Option Nat :=
-  (inj.find? (fun x => x.1 = name ∧ x.2.1 = k)).map (·.2.2)
-
-structure St where
-  l : Ledger := {}
-  hs : List H := []
-  loopOk : Bool := false
-  lockDone : Bool := false
-  cnt : List (String × Nat) := []     -- per-op syscall occurrence counters
-  deriving Repr
-
-def St.h? (s : St) (i : Nat) : Option H := s.hs[i]?
-def St.liveH (s : St) (i : Nat) : Option H := match s.hs[i]? with | some h => if h.st = .live then some h else none | none => none
-def St.setH (s : St) (i : Nat) (f : H → H) : St := { s with hs := s.hs.modify i f }
-def St.has (s : St) (o : Owner) : Bool := (find? s.l.led o).isSome
-def St.run (s : St) (ps : List Prim) : St := { s with l := exec s.l ps }
-def St.say (s : St) (line : String) : St := s.run [.say line]
-def St.newH (s : St) (h : H) : St := { s with hs := s.hs ++ [h] }
-
-/-- next occurrence of syscall `name` in this op: returns the injected errno if it is made to fail -/
-def St.sys (s : St) (inj : Inj) (name : String) : Option Nat × St :=
-  let n := ((s.cnt.find? (·.1 = name)).map (·.2)).getD 0 + 1
-  let s := { s with cnt := (name, n) :: s.cnt.filter (·.1 ≠ name) }
-  match failsAt inj name n with
-  | some e => (some e, s.say s!"env fail {name} {e}")
-  | none => (none, s)
-
-/-- uv__stream_init (stream.c:99-110): make sure the loop has its spare descriptor -/
-def emfileInit (s : St) (inj : Inj) : St :=
-  if s.has (.loop .emfile) then s else
-  match s.sys inj "open" with
-  | (none, s) => s.run [.create .openCloexec .file (.loop .emfile)]
-  | (some _, s) =>
-    match s.sys inj "open" with
-    | (none, s) => s.run [.create .openCloexec .file (.loop .emfile)]
-    | (some _, s) => s
-
-def nQueued (s : St) (h : Nat) : Nat := (s.l.led.filter (·.owner = .handle h .q)).length
-
-/-- uv__stream_close (stream.c:1540-1563) -/
-def streamClosePrims (s : St) (h : Nat) : List Prim :=
-  [.closeOwner (.handle h .io) true, .closeOwner (.handle h .acc) false] ++
-  List.replicate (nQueued s h) (.closeOwner (.handle h .q) false)
-
-/-- uv_accept (stream.c:536-598) -/
-def acceptInto (s : St) (srv cli : Nat) (ckind : HKind) : St × Bool :=
-  let ok := !s.has (.handle cli .io) && (ckind = .tcp || ckind = .pipe || ckind = .udp || ckind = .tty)
-  let s := if ok then (s.run [.transfer (.handle srv .acc) (.handle cli .io)]).setH cli (fun h => { h with readable := true, bound := true })
-           else s.run [.closeOwner (.handle srv .acc) false]
-  let s := if nQueued s srv > 0 then s.run [.transfer (.handle srv .q) (.handle srv .acc)] else s
-  (s, ok)
-
-inductive Op
-  | loopInit | loopClose
-  | tcpInit (af : Bool) | pipeInit (ipc : Bool) | udpInit (af : Bool)
-  | ttyInit (f : Nat) | pollInit (f : Nat) | asyncInit | signalStart | fsEventStart (ok : Bool)
-  | ufd (kind : String) (at_ : Option Nat) | uclose (f : Nat)
-  | open_ (h f : Nat)
-  | bind (h : Nat) (variant : String) (other : Nat)
-  | listen (h : Nat) | policy (h p : Nat) | readStart (h : Nat)
-  | connect (h : Nat) (target : Option Nat)
-  | accept (s c : Nat) | close (h : Nat) | run
-  | uvPipe | uvSocketpair
-  | fsOpen (variant : String) | fsMkstemp | fsClose (f : Nat) | fsCopyfile (ok : Bool)
-  | ipcSend (f h : Nat) (kinds : List HKind)
-  | spawn (ok : Bool) (cs : List (Option (Sum Nat Nat)))   -- per container: none = ignore/absent, inl h = create pipe, inr f = inherit fd
-  | end_
-  deriving Repr
-
-def ret (s : St) (ok : Bool) : St := s.say (if ok then "ret 0" else "ret E")
-def bad (s : St) : St := s.say "bad-op"
-
-def isStream (k : HKind) : Bool := k = .tcp || k = .pipe || k = .tty
-
-/-- one readiness event inside uv_run: a listening server with a pending connection
-    (uv__server_io, stream.c:508-533, with uv__emfile_trick 484-505), or an IPC pipe with descriptors
-    in flight (uv__read → uv__stream_recv_cmsg, stream.c:981-1021) -/
-def runStep (s : St) (inj : Inj) : Option St :=
-  let idx := List.range s.hs.length
-  match idx.find? (fun i => match s.liveH i with
-      | some h => h.listening && h.pending > 0 && !s.has (.handle i .acc) | none => false) with
-  | some i =>
-    let h := (s.h? i).getD { kind := .tcp }
-    match s.sys inj "accept4" with
-    | (some e, s) =>
-      if e = 24 || e = 23 then
-        if !s.has (.loop .emfile) then some s else
-        let s := s.run [.closeOwner (.loop .emfile) false]
-        -- accept and close until the backlog is empty (or accept fails again)
-        let rec shed (s : St) : Nat → St
-          | 0 => s
-          | n + 1 =>
-            match s.sys inj "accept4" with
-            | (some _, s) => s
-            | (none, s) => shed ((s.run [.create .uvAccept .sock (.temp 0), .closeOwner (.temp 0) false]).setH i
-                                  (fun h => { h with pending := h.pending - 1 })) n
-        let s := shed s h.pending
-        match s.sys inj "open" with
-        | (none, s) => some (s.run [.create .openCloexec .file (.loop .emfile)])
-        | (some _, s) => some s
-      else some s
-    | (none, s) =>
-      let s := (s.run [.create .uvAccept .sock (.handle i .acc)]).setH i (fun h => { h with pending := h.pending - 1 })
-      let s := s.say s!"cb conn h{i} 0"
-      if h.policy = 1 then
-        let c := s.hs.length
-        let s := emfileInit (s.newH { kind := h.kind }) inj
-        let (s, ok) := acceptInto s i c h.kind
-        some (s.say s!"cb accept h{i} h{c} {if ok then "0" else "E"}")
-      else some s
-  | none =>
-    match idx.find? (fun i => match s.liveH i with
-        | some h => h.reading && !h.inflight.isEmpty && s.has (.handle i .io) | none => false) with
-    | none => none
-    | some i =>
-      let h := (s.h? i).getD { kind := .pipe }
-      let batch := h.inflight.headD []
-      let s := s.setH i (fun h => { h with inflight := h.inflight.tail })
-      let s := batch.foldl (fun s _ =>
-        if s.has (.handle i .acc) then s.run [.create .recvCmsg .ipc (.handle i .q)]
-        else s.run [.create .recvCmsg .ipc (.handle i .acc)]) s
-      let s := s.say s!"cb read h{i} 1"
-      if h.policy = 1 then
-        some (batch.foldl (fun s k =>
-          if !s.has (.handle i .acc) then s else
-          let c := s.hs.length
-          let s := s.newH { kind := k }
-          let s := if isStream k then emfileInit s inj else s
-          let (s, ok) := acceptInto s i c k
-          s.say s!"cb accept h{i} h{c} {if ok then "0" else "E"}") s)
-      else some s
-
-def runLoop (inj : Inj) : Nat → St → St
-  | 0, s => s
-  | n + 1, s => match runStep s inj with
-    | none => s
-    | some s => runLoop inj n s
-
-def runFuel (s : St) : Nat := (s.hs.map (fun h => h.pending + h.inflight.length)).sum + 1
-
-/-- uv_spawn, parent side (process.c:986-1110 and 935-980).  `cs`: containers; index 1 is always an
-    inherited descriptor of the harness (no ledger effect). -/
-def spawnOp (s : St) (inj : Inj) (ok : Bool) (cs : List (Option (Sum Nat Nat))) : St :=
-  let p := s.hs.length
-  let s := s.newH { kind := .proc }
-  let pipes : List (Nat × Nat) :=      -- (container index, handle)
-    (List.range cs.length).filterMap (fun i => match cs[i]? with | some (some (Sum.inl h)) => some (i, h) | _ => none)
-  -- uv__process_init_stdio for each container, in order
-  let rec initStdio (s : St) (done : List (Nat × Nat)) : List (Nat × Nat) → St × Bool
-    | [] => (s, true)
-    | (i, h) :: rest =>
-      match s.sys inj "socketpair" with
-      | (some _, s) =>
-        -- error: close what was created so far ([0] then [1], container order)
-        (s.run (done.reverse.flatMap (fun (j, _) => [Prim.closeOwner (.temp (2 * j)) false, .closeOwner (.temp (2 * j + 1)) false])), false)
-      | (none, s) =>
-        initStdio (s.run [.create .socketpair .sock (.temp (2 * i)), .create .socketpair .sock (.temp (2 * i + 1))]) ((i, h) :: done) rest
-  match initStdio s [] pipes with
-  | (s, false) => ret (s.setH p (fun h => { h with st := .closing })) false
-  | (s, true) =>
-    -- uv__spawn_and_init_child: the exec-error pipe
-    let (execOk, s) := match s.sys inj "pipe2" with
-      | (some _, s) => (false, s)
-      | (none, s) => (ok, s.run [.create .pipe2 .pipe (.temp 100), .create .pipe2 .pipe (.temp 101),
-                               .closeOwner (.temp 101) false, .closeOwner (.temp 100) false])
-    -- uv__process_open_stream for each container, in order
-    let rec openStreams (s : St) (done : List (Nat × Nat)) : List (Nat × Nat) → St × Bool
-      | [] => (s, true)
-      | (i, h) :: rest =>
-        let s := s.run [.closeOwner (.temp (2 * i + 1)) false]
-        if s.has (.handle h .io) then
-          -- UV_EBUSY: close the streams opened so far (latest first), then everything still in pipes[][]
-          let s := done.foldl (fun s (_, hj) => s.run (streamClosePrims s hj)) s
-          let s := s.run [.closeOwner (.temp (2 * i)) false]
-          let s := s.run (rest.flatMap (fun (j, _) => [Prim.closeOwner (.temp (2 * j)) false, .closeOwner (.temp (2 * j + 1)) false]))
-          (s, false)
-        else
-          openStreams ((s.run [.transfer (.temp (2 * i)) (.handle h .io)]).setH h (fun x => { x with readable := true })) ((i, h) :: done) rest
-    match openStreams s [] pipes with
-    | (s, false) => ret (s.setH p (fun h => { h with st := .closing })) false
-    | (s, true) =>
-      if execOk then ret s true else ret (s.setH p (fun h => { h with st := .closing })) false
-
-def userKind : String → Option (List Kind)
-  | "tcpsock" => some [.sock] | "udpsock" => some [.sock] | "unixsock" => some [.sock] | "file" => some [.file]
-  | "pipe" => some [.pipe, .pipe] | "sockpair" => some [.sock, .sock] | _ => none
-
-def userEntry (s : St) (f : Nat) : Option Entry :=
-  match findId? s.l.led f with
-  | some e => if e.owner = .user then some e else none
-  | none => none
-
-def step (s : St) (inj : Inj) (op : Op) : St :=
-  let s := { s with cnt := [] }
-  match op with
-  | .loopInit =>
-    if s.loopOk then bad s else
-    -- uv__platform_loop_init (linux.c:640-657)
-    match s.sys inj "epoll_create1" with
-    | (some _, s) => ret s false
-    | (none, s) =>
-      let s := s.run [.create .epollCreate .epoll (.loop .backend)]
-      let s := match s.sys inj "io_uring_setup" with
-        | (some _, s) => s
-        | (none, s) => s.run [.create .ioUring .ring (.loop .ring)]
-      -- uv__signal_global_once_init (signal.c:79-112), once per process
-      let s := if s.lockDone then s else
-        let (_, s) := s.sys inj "pipe2"
-        { s.run [.create .pipe2 .pipe (.glob 0), .create .pipe2 .pipe (.glob 1)] with lockDone := true }
-      -- uv__process_init → uv_signal_init → uv__signal_loop_once_init (signal.c:262-280)
-      match s.sys inj "pipe2" with
-      | (some _, s) =>
-        -- fail_signal_init: uv__platform_loop_delete, then backend_fd (loop.c:115-120)
-        ret (s.run [.closeOwner (.loop .ring) false, .closeOwner (.loop .backend) false]) false
-      | (none, s) =>
-        let s := s.run [.create .pipe2 .pipe (.loop .sig0), .create .pipe2 .pipe (.loop .sig1)]
-        -- uv_async_init(&loop->wq_async) → uv__async_start (async.c:258-318)
-        match s.sys inj "eventfd" with
-        | (some _, s) =>
-          ret (s.run [.closeOwner (.loop .sig0) false, .closeOwner (.loop .sig1) false,
-                      .closeOwner (.loop .ring) false, .closeOwner (.loop .backend) false]) false
-        | (none, s) => ret { s.run [.create .eventfd .evfd (.loop .async)] with loopOk := true } true
-  | .loopClose =>
-    if !s.loopOk then ret s false else
-    if s.hs.any (fun h => h.st = .live || h.st = .closing) then ret s false else
-    -- uv__loop_close (loop.c:166-200)
-    ret { s.run [.closeOwner (.loop .sig0) false, .closeOwner (.loop .sig1) false, .closeOwner (.loop .ring) false,
-                 .closeOwner (.loop .inotify) false, .closeOwner (.loop .async) false,
-                 .closeOwner (.loop .emfile) false, .closeOwner (.loop .backend) false] with loopOk := false } true
-  | .ufd kind at_ =>
-    match userKind kind with
-    | none => bad s
-    | some ks =>
-      let stdioClash := match at_ with
-        | some n => n > 1 || s.l.led.any (fun e => e.stdio)
-        | none => false
-      if stdioClash then bad s else
-      s.run ((List.range ks.length).map (fun i => Prim.userCreate (ks.getD i .sock) (i = 0 && at_.isSome)))
-  | .uclose f =>
-    match userEntry s f with
-    | some _ => s.run [.userClose f]
-    | none => bad s
-  | .uvPipe =>
-    match s.sys inj "pipe2" with
-    | (some _, s) => ret s false
-    | (none, s) => ret (s.run [.createGive .pipe2 .pipe, .createGive .pipe2 .pipe]) true
-  | .uvSocketpair =>
-    match s.sys inj "socketpair" with
-    | (some _, s) => ret s false
-    | (none, s) => ret (s.run [.createGive .socketpair .sock, .createGive .socketpair .sock]) true
-  | .end_ => ret (s.run [.userCloseAll]) true
-  | op =>
-    if !s.loopOk then bad s else
-    match op with
-    | .tcpInit af =>
-      let i := s.hs.length
-      let s := emfileInit (s.newH { kind := .tcp }) inj
-      if af then
-        match s.sys inj "socket" with
-        | (some _, s) => ret (s.setH i (fun h => { h with st := .dead })) false
-        | (none, s) => ret (s.run [.create .uvSocket .sock (.handle i .io)]) true
-      else ret s true
-    | .pipeInit ipc => ret (emfileInit (s.newH { kind := .pipe, ipc := ipc }) inj) true
-    | .udpInit af =>
-      let i := s.hs.length
-      let s := s.newH { kind := .udp }
-      if af then
-        match s.sys inj "socket" with
-        | (some _, s) => ret (s.setH i (fun h => { h with st := .dead })) false
-        | (none, s) => ret (s.run [.create .uvSocket .sock (.handle i .io)]) true
-      else ret s true
-    | .ttyInit f =>
-      match userEntry s f with
-      | none => bad s
-      | some e =>
-        let i := s.hs.length
-        if e.kind = .file then ret (s.newH { kind := .tty, st := .dead }) false
-        else
-          let s := emfileInit (s.newH { kind := .tty, readable := true }) inj
-          ret (s.run [.adopt f (.handle i .io)]) true
-    | .pollInit f =>
-      match findId? s.l.led f with
-      | none => bad s
-      | some e =>
-        if e.kind = .file then ret (s.newH { kind := .poll, st := .dead }) false
-        else ret (s.newH { kind := .poll }) true
-    | .asyncInit => ret (s.newH { kind := .async }) true
-    | .signalStart => ret (s.newH { kind := .signal }) true
-    | .fsEventStart ok =>
-      let s := s.newH { kind := .fsev }
-      if s.has (.loop .inotify) then ret s ok else
-      match s.sys inj "inotify_init1" with
-      | (some _, s) => ret s false
-      | (none, s) => ret (s.run [.create .inotifyInit .inot (.loop .inotify)]) ok
-    | .open_ h f =>
-      match s.liveH h, userEntry s f with
-      | some hh, some e =>
-        if !(hh.kind = .tcp || hh.kind = .pipe || hh.kind = .udp) then bad s else
-        if s.has (.handle h .io) then ret s false else
-        if hh.kind = .udp && e.kind ≠ .sock then ret s false else
-        ret ((s.run [.adopt f (.handle h .io)]).setH h (fun x => { x with readable := true })) true
-      | _, _ => bad s
-    | .bind h variant other =>
-      match s.liveH h with
-      | none => bad s
-      | some hh =>
-        if !(variant = "ok" || variant = "bad" || variant = "same") then bad s else
-        match hh.kind with
-        | .tcp | .udp =>
-          -- maybe_new_socket (tcp.c:86-109) / uv__udp_bind (udp.c:375-382): the socket stays in the handle
-          let (sockOk, s) := if s.has (.handle h .io) then (true, s) else
-            match s.sys inj "socket" with
-            | (some _, s) => (false, s)
-            | (none, s) => (true, s.run [.create .uvSocket .sock (.handle h .io)])
-          if !sockOk then ret s false else
-          if hh.bound then ret s false else
-          if variant = "bad" then ret s false else
-          if variant = "same" then
-            if hh.kind = .tcp then ret (s.setH h (fun x => { x with bound := true, delayed := true })) true
-            else ret s false
-          else ret (s.setH h (fun x => { x with bound := true })) true
-        | .pipe =>
-          -- uv_pipe_bind2 (pipe.c:61-150)
-          if s.has (.handle h .io) then ret s false else
-          (match s.sys inj "socket" with
-          | (some _, s) => ret s false
-          | (none, s) =>
-            if variant = "ok" then ret ((s.run [.create .uvSocket .sock (.handle h .io)]).setH h (fun x => { x with bound := true })) true
-            else ret (s.run [.create .uvSocket .sock (.temp 0), .closeOwner (.temp 0) false]) false)
-        | _ => bad s
-    | .listen h =>
-      match s.liveH h with
-      | none => bad s
-      | some hh =>
-        match hh.kind with
-        | .tcp =>
-          if hh.delayed then ret s false else
-          let (sockOk, s) := if s.has (.handle h .io) then (true, s) else
-            match s.sys inj "socket" with
-            | (some _, s) => (false, s)
-            | (none, s) => (true, s.run [.create .uvSocket .sock (.handle h .io)])
-          if !sockOk then ret s false else
-          if hh.connected then ret s false else
-          ret (s.setH h (fun x => { x with listening := true, bound := true })) true
-        | .pipe =>
-          if !s.has (.handle h .io) || hh.ipc || !hh.bound then ret s false
-          else ret (s.setH h (fun x => { x with listening := true })) true
-        | _ => bad s
-    | .policy h p => match s.liveH h with | some _ => s.setH h (fun x => { x with policy := p }) | none => bad s
-    | .readStart h =>
-      match s.liveH h with
-      | none => bad s
-      | some hh => if hh.readable then ret (s.setH h (fun x => { x with reading := true })) true else ret s false
-    | .connect h target =>
-      match s.liveH h with
-      | none => bad s
-      | some hh =>
-        let tgtOk := match target with
-          | some t => (match s.liveH t with | some th => th.kind = hh.kind && th.listening | none => false)
-          | none => false
-        let bump (s : St) : St := match target with
-          | some t => if tgtOk then s.setH t (fun x => { x with pending := x.pending + 1 }) else s
-          | none => s
-        match hh.kind with
-        | .tcp =>
-          let badTarget : Bool := match target with
-            | some t => decide (((s.liveH t).map (·.kind)) ≠ some .tcp)
-            | none => false
-          if badTarget then bad s else
-          if hh.connected then ret s false else
-          let (sockOk, s) := if hh.delayed || s.has (.handle h .io) then (true, s) else
-            match s.sys inj "socket" with
-            | (some _, s) => (false, s)
-            | (none, s) => (true, s.run [.create .uvSocket .sock (.handle h .io)])
-          if !sockOk then ret s false else
-          ret (bump (s.setH h (fun x => { x with connected := true, readable := true }))) true
-        | .pipe =>
-          let (sockOk, s) := if s.has (.handle h .io) then (true, s) else
-            match s.sys inj "socket" with
-            | (some _, s) => (false, s)
-            | (none, s) => (true, s.run [.create .uvSocket .sock (.handle h .io)])
-          if !sockOk then ret s true else
-          if hh.connected || hh.listening then ret s true else
-          ret (bump (s.setH h (fun x => { x with connected := tgtOk, readable := x.readable || tgtOk }))) true
-        | _ => bad s
-    | .accept sv c =>
-      match s.liveH sv, s.liveH c with
-      | some _, some ch =>
-        if !s.has (.handle sv .acc) then ret s false else
-        if !(ch.kind = .tcp || ch.kind = .pipe || ch.kind = .udp || ch.kind = .tty) then ret s false else
-        let (s, ok) := acceptInto s sv c ch.kind
-        ret s ok
-      | _, _ => bad s
-    | .close h =>
-      match s.liveH h with
-      | none => bad s
-      | some hh =>
-        let s := if isStream hh.kind then s.run (streamClosePrims s h)
-                 else if hh.kind = .udp then s.run [.closeOwner (.handle h .io) true]   -- uv__udp_close (udp.c:56-66)
-                 else s
-        ret (s.setH h (fun x => { x with st := .closing, listening := false, reading := false })) true
-    | .run =>
-      let s := runLoop inj (runFuel s) s
-      ret { s with hs := s.hs.map (fun h =>
-              if h.st = .closing || (h.kind = .proc && h.st = .live) then { h with st := .closed } else h) } true
-    | .fsOpen variant =>
-      if variant = "missing" then ret s false else
-      if !(variant = "ok" || variant = "creat") then bad s else
-      (match s.sys inj "open" with
-      | (some _, s) => ret s false
-      | (none, s) => (s.run [.createGive .fsOpen .file]).say s!"ret f{s.l.next}")
-    | .fsMkstemp => (s.run [.createGive .mkostemp .file]).say s!"ret f{s.l.next}"
-    | .fsClose f =>
-      match userEntry s f with
-      | some e => if e.stdio then bad s else ret (s.run [.closeUser f]) true
-      | none => bad s
-    | .fsCopyfile ok =>
-      -- uv__fs_copyfile (fs.c:1230-1425): both descriptors are closed on every exit
-      if !ok then ret s false else
-      (match s.sys inj "open" with
-      | (some _, s) => ret s false
-      | (none, s) =>
-        let s := s.run [.create .fsOpen .file (.temp 0)]
-        match s.sys inj "open" with
-        | (some _, s) => ret (s.run [.closeOwner (.temp 0) false]) false
-        | (none, s) => ret (s.run [.create .fsOpen .file (.temp 1), .closeOwner (.temp 0) false, .closeOwner (.temp 1) false]) true)
-    | .ipcSend f h kinds =>
-      match userEntry s f with
-      | none => bad s
-      | some _ => ret (s.setH h (fun x => if x.st = .live then { x with inflight := x.inflight ++ [kinds] } else x)) true
-    | .spawn ok cs =>
-      if cs.any (fun c => match c with
-          | some (.inl h) => ((s.liveH h).map (·.kind)) ≠ some .pipe
-          | some (.inr f) => (findId? s.l.led f).isNone
-          | none => false) then bad s
-      else spawnOp s inj ok cs
-    | _ => bad s
-
-def ownerStr : Owner → String
-  | .loop _ => "L" | .glob _ => "G" | .user => "U" | .leaked => "-" | .temp _ => "-"
-  | .handle h .io => s!"h{h}.io" | .handle h .acc => s!"h{h}.acc" | .handle h .q => s!"h{h}.q"
-
-def ownLine (s : St) : String :=
-  "own" ++ String.join (s.l.led.map (fun e => s!" f{e.id}:{ownerStr e.owner}"))
 
 end UvModel.FdLedger
